@@ -122,7 +122,7 @@ def run(ctx):
             ctx.violation("deltamax-not-composition-only", {"composition": (p, n, z), "seqs": ["".join(t["seq"]) for t in two]},
                           actual=[t["value"] for t in two])
     # the strata of the search: lopsided charge counts, 12..17 neutrals, neighbouring compositions of one length (judged by TLC)
-    for comp in patterning.composition_grid(ctx.rng, ctx.pick(48, 400)):
+    for comp in patterning.composition_grid(ctx.rng, ctx.pick(72, 600)):
         tid += 1
         t = trace_for(lc, ctx, tid, common.spell(patterning.arrange(comp, ctx.rng), ctx.rng), ctx.rng.choice([0, 0, 1, 2]))
         if t:
